@@ -56,6 +56,7 @@ struct req0_ctx {
 	nni_duration  retry;
 	nni_time      retry_time; // retry after this expires
 	bool          conn_reset; // sent message w/o retry, peer disconnect
+	bool          req_owned;  // we hold our own reference on req_msg
 };
 
 // A req0_sock is our per-socket protocol private structure.
@@ -367,11 +368,13 @@ req0_recv_cb(void *arg)
 	nni_id_remove(&s->requests, id);
 	ctx->request_id = 0;
 	if (ctx->req_msg != NULL) {
-		// Only free msg if we originally cloned it (for retries)
-		if (ctx->retry > 0) {
+		// Only free msg if we originally cloned it (for retries).
+		// (The resend time may have been changed since then.)
+		if (ctx->req_owned) {
 			nni_msg_free(ctx->req_msg);
 		}
-		ctx->req_msg = NULL;
+		ctx->req_owned = false;
+		ctx->req_msg   = NULL;
 	}
 
 	// Is there an aio waiting for us?
@@ -548,6 +551,9 @@ req0_run_send_queue(req0_sock *s, nni_aio_completions *sent_list)
 		// retries)
 		if (ctx->retry > 0) {
 			nni_msg_clone(ctx->req_msg);
+			ctx->req_owned = true;
+		} else {
+			ctx->req_owned = false;
 		}
 		nni_aio_set_msg(&p->aio_send, ctx->req_msg);
 		nni_pipe_send(p->pipe, &p->aio_send);
@@ -568,11 +574,13 @@ req0_ctx_reset(req0_ctx *ctx)
 		ctx->request_id = 0;
 	}
 	if (ctx->req_msg != NULL) {
-		// Only free msg if we originally cloned it (for retries)
-		if (ctx->retry > 0) {
+		// Only free msg if we originally cloned it (for retries).
+		// (The resend time may have been changed since then.)
+		if (ctx->req_owned) {
 			nni_msg_free(ctx->req_msg);
 		}
-		ctx->req_msg = NULL;
+		ctx->req_owned = false;
+		ctx->req_msg   = NULL;
 	}
 	if (ctx->rep_msg != NULL) {
 		nni_msg_free(ctx->rep_msg);
